@@ -11,6 +11,7 @@ CONSTANTS
   UniqueVals = FALSE
   Ghost = FALSE
   Mut = "none"
+  MaxDie = 0
   EdgeFile = "edges-GenLong3x112.ndjson"
 INIT Init
 NEXT Next
